@@ -14,7 +14,12 @@ use crate::types::{self, CommandResult};
 pub fn get_job_line(job: &types::Job, trim: bool) -> String {
     let mut cmd = job.cmd.clone();
     if trim && cmd.len() > 50 {
-        cmd.truncate(50);
+        // cut in front of a character, not inside one
+        let mut end = 50;
+        while !cmd.is_char_boundary(end) {
+            end -= 1;
+        }
+        cmd.truncate(end);
         cmd.push_str(" ...");
     }
     let _cmd = if job.is_bg && job.status == "Running" {
